@@ -10,7 +10,15 @@ for f in sorted(glob.glob(os.path.join(V, "seeded", "*", "meta.json"))):
         tag = "DETECTED" if c["exit"] == 1 else ("missed" if c["exit"] == 0 else "error")
         first = c.get("first", "")
         rule = re.sub(r" steps=.*", "", first.replace("rule=", ""))
-        det.append("%s: %s%s" % (c["property"], tag, (" (" + rule + ")") if rule and tag == "DETECTED" else ""))
+        how = ""
+        if tag == "DETECTED":
+            by = []
+            if rule:
+                by.append("search: " + rule)
+            if c.get("by_corpus"):
+                by.append("corpus trace")
+            how = " (" + "; ".join(by) + ")" if by else ""
+        det.append("%s: %s%s" % (c["property"], tag, how))
     rows.append("| %s | %s | %s | %s | %s |" % (m["id"], "yes" if m.get("confirmed") else "NO", m.get("needs", "").replace("|", "/"), "; ".join(det), m.get("remark", "")))
 table = "| id | confirmed | what it needs to manifest | checks run (quick, default budget) | remark |\n|---|---|---|---|---|\n" + "\n".join(rows)
 p = os.path.join(V, "DESIGN.md")
